@@ -1183,6 +1183,8 @@ class Executor:
     def ev_BinOp(self, node, st, ctx):
         a = self.eval(node.left, st, ctx)
         b = self.eval(node.right, st, ctx)
+        if isinstance(node.op, ast.Sub) and isinstance(a, LL) and a.kind == "set" and isinstance(b, LL) and all(isinstance(x, Ob) for x in a.items + b.items):
+            return LL("set", [x for x in a.items if not any(_const_eq(x.o, y.o) for y in b.items)])
         if isinstance(node.op, ast.Sub) and isinstance(a, KeySet):
             if isinstance(b, LL) and all(isinstance(x, Ob) for x in b.items):
                 return KeySet(a.d, a.minus + [x.o for x in b.items])
@@ -1517,6 +1519,8 @@ class Executor:
                 return v if v is not None else (args[1] if len(args) > 1 else Ob(None))
             if name == "copy" and not args:
                 return LD(recv.items)
+            if name == "keys" and not args:
+                return LL("set", [Ob(k) for k, _ in recv.items])
             raise NotInSubset(f"method {name} on a local dict", node)
         if isinstance(recv, (LL, Comp, KeySet)):
             raise NotInSubset(f"method {name} on a local container", node)
@@ -1571,6 +1575,8 @@ class Executor:
                 return KeySet(args[0].args[0])
             if o is set and not args:
                 return LL("set", [])
+            if o is set and len(args) == 1 and isinstance(args[0], LL):
+                return LL("set", args[0].items)
             if o is dict and not args and not kw:
                 return LD([])
             if o in (tuple, list) and len(args) == 1 and isinstance(args[0], LL):
